@@ -42,7 +42,9 @@ structure Oracle where
   runAtShutdown : List String := []
   shutdownReturned : Bool := false
   shutdownBegun : Bool := false
-  sdSignalled : List String := []            -- names signalled since the running shutdown began
+  sdSignalled : List String := []            -- names signalled since their last launch
+  callBegan : List (String × Nat) := []      -- api id ↦ step at which its thread left `begin`
+  lastStartRet : List (String × Nat) := []   -- name ↦ step of the last successful start/restart
   sdHandled : List String := []              -- the running shutdown has finished stopping these names
   triggers : List (String × Int × Bool) := []   -- (process, code, genuine)
   calls : List (String × List String) := []     -- api id ↦ op words
@@ -181,6 +183,7 @@ def onObs (o : Oracle) (op : List String) (cmdAfter : List String)
       if d.policy == "always" || (d.policy == "on_failure" && code ≠ 0) then [] else [s!"C02:relaunch-against-policy {x} {d.policy} code={code}"]
     let rel := if isRe then lookupD o.relaunches x 0 + 1 else lookupD o.relaunches x 0
     let mx := if isRe && d.max > 0 && rel > d.max then [s!"C02:max-restarts-exceeded {x} {rel}>{d.max}"] else []
+    let o := { o with sdSignalled := delS o.sdSignalled x }
     let o := { o with launchesInst := bump o.launchesInst x, relaunches := setKV o.relaunches x rel,
                       launchedEver := addS o.launchedEver x, fatalPending := delS o.fatalPending x }
     (o, gate ++ afterStop ++ pol ++ mx)
@@ -197,14 +200,14 @@ def onObs (o : Oracle) (op : List String) (cmdAfter : List String)
     let dies := wasAlive && (sig == "9" || d.onSignal != "ign")
     let code : Int := if sig == "9" then -1 else d.onSignal.toInt?.getD 0
     let o := if dies then { o with lastCode := setKV o.lastCode x code, natural := delS o.natural x } else o
-    let o := if o.shutdownBegun then { o with sdSignalled := addS o.sdSignalled x } else o
+    let o := { o with sdSignalled := addS o.sdSignalled x }
     (o, c12)
   | ["sdorder", l] => ({ o with runAtShutdown := csv l, stopBegun := (csv l).foldl addS o.stopBegun, shutdownBegun := true }, [])
   | ["sdorder"] => ({ o with runAtShutdown := [], shutdownBegun := true }, [])
   | ["sdreturned"] =>
     let alive := if cmdAfter.isEmpty then [] else [s!"C03:alive-after-shutdown {",".intercalate cmdAfter}"]
     let running := st.filterMap fun (n, (s, _)) => if isRunningSt s then some s!"C03:reported-running-after-shutdown {n} {s}" else none
-    ({ o with shutdownReturned := true, shutdownBegun := false, sdHandled := [], sdSignalled := [], stopReq := o.decls.map (·.name),
+    ({ o with shutdownReturned := true, shutdownBegun := false, sdHandled := [], stopReq := o.decls.map (·.name),
               everStopped := o.decls.foldl (fun l d => addS l d.name) o.everStopped }, alive ++ running)
   | ["projexit", c] =>
     let x := actor op
@@ -225,15 +228,20 @@ def onObs (o : Oracle) (op : List String) (cmdAfter : List String)
     | ["stop", x] =>
       let known := o.decls.any (·.name = x)
       let f := if !known && r != "no-such" then [s!"C08:unknown-name-not-rejected stop {x} {r}"] else []
-      (if r == "ok" then { o with stopReq := addS o.stopReq x, everStopped := addS o.everStopped x } else o, f)
+      -- the stop was served on the instance that existed when the call began: a start/restart that
+      -- succeeded in between begins a new life cycle the stop does not apply to
+      let superseded := lookupD o.lastStartRet x 0 > lookupD o.callBegan id 0
+      (if r == "ok" && !superseded then { o with stopReq := addS o.stopReq x, everStopped := addS o.everStopped x }
+       else if r == "ok" then { o with everStopped := addS o.everStopped x } else o, f)
     | ["start", x] =>
       let known := o.decls.any (·.name = x)
       let f := if !known && r != "no-such" then [s!"C08:unknown-name-not-rejected start {x} {r}"] else []
-      (if r == "ok" then { o with stopReq := delS o.stopReq x } else o, f)
+      (if r == "ok" then { o with stopReq := delS o.stopReq x, lastStartRet := setKV o.lastStartRet x (o.steps + 1) } else o, f)
     | ["restart", x] =>
       let known := o.decls.any (·.name = x)
       let f := if !known && r != "no-such" then [s!"C08:unknown-name-not-rejected restart {x} {r}"] else []
-      (if r == "ok" then { o with stopReq := delS o.stopReq x, everStopped := addS o.everStopped x } else o, f)
+      (if r == "ok" then { o with stopReq := delS o.stopReq x, everStopped := addS o.everStopped x,
+                                   lastStartRet := setKV o.lastStartRet x (o.steps + 1) } else o, f)
     | _ => (o, if r == "panic" then [s!"C20:panic-in-api-call {id}"] else [])
   | _ => (o, [])
 
@@ -330,7 +338,9 @@ def feed (o : Oracle) (op : List String) (impl : String) : Oracle × String :=
   -- stop / restart requests that have begun executing (their thread has left `begin`)
   let o := cur.foldl (fun o (kl : String × String) =>
     if kl.1.startsWith "api:" && kl.2 != "begin" then
-      match lookupD o.calls (((kl.1.drop 4).toString.splitOn "#").headD "") [] with
+      let id := ((kl.1.drop 4).toString.splitOn "#").headD ""
+      let o := if o.callBegan.any (·.1 = id) then o else { o with callBegan := setKV o.callBegan id (o.steps + 1) }
+      match lookupD o.calls id [] with
       | ["stop", x] => { o with stopBegun := addS o.stopBegun x }
       | ["restart", x] => { o with stopBegun := addS o.stopBegun x }
       | _ => o
